@@ -24,7 +24,7 @@ def run(ctx, prop, n=None):
         ctx.design("FetchCursor", "FetchCursor.cfg", workers=4, timeout=600, tag="cursor_design")
         m = ctx.tlc("FetchCursor", "FetchCursor_mut.cfg", workers=4, timeout=600, tag="cursor_mutant", allow_fail=True)
         ctx.notes["design_mutant_stale_epoch_after_partial_take_rejected"] = bool(m.violated)
-    n = n or (300 if ctx.tier == "quick" else 3000)
+    n = n or (450 if ctx.tier == "quick" else 3000)
     out = os.path.join(ctx.work, "fetch_trace_raw.ndjson")
     if os.path.exists(out):
         os.remove(out)
